@@ -219,6 +219,23 @@ pub fn fmt_snap<VV: ValFmt>(s: &Snapshot<'_, K, VV>) -> String {
     format!("len={} sc={} count={} {}", len, s.size_ctl, s.count, bins.join(" "))
 }
 
+/// C10, sequential runs only: when an operation has returned, the entry count is below the growth
+/// threshold (`add_count` loops until it is) unless the table has its maximum length. With
+/// concurrent inserters this need not hold at quiescence (an inserter that finds a resize in its
+/// final phase neither joins it nor starts the next one), so the scheduled suites do not use it.
+pub fn seq_growth_due<VV: ValFmt>(s: &Snapshot<'_, K, VV>) -> Vec<String> {
+    let mut errs = vec![];
+    if let Some(t) = &s.table {
+        if s.size_ctl > 0 && s.count >= s.size_ctl && t.len < (1 << 30) {
+            errs.push(format!(
+                "count {} has reached size_ctl {} (the growth threshold of a {}-bin table) after the operation returned, but the table was not replaced by one of twice the length",
+                s.count, s.size_ctl, t.len
+            ));
+        }
+    }
+    errs
+}
+
 /// Structural validator on a snapshot (implementation-level oracle for C05/C06).
 /// Returns a list of problems (empty = well formed).
 pub fn validate_snapshot<VV: ValFmt>(s: &Snapshot<'_, K, VV>, quiescent: bool) -> Vec<String> {
@@ -709,7 +726,7 @@ impl Target for HashMap<K, V, TableHasher> {
     fn snap(&self) -> (String, Vec<String>, SnapStats) {
         let g = self.guard();
         let s = self.verif_snapshot(&g);
-        (fmt_snap(&s), validate_snapshot(&s, true), snap_stats(&s))
+        (fmt_snap(&s), { let mut e = validate_snapshot(&s, true); e.extend(seq_growth_due(&s)); e }, snap_stats(&s))
     }
     fn extend(&self, items: &[Item], hint: usize) {
         let mut r = self;
@@ -894,7 +911,7 @@ impl Target for HashSet<K, TableHasher> {
         let m = self.verif_inner();
         let g = m.guard();
         let s = m.verif_snapshot(&g);
-        (fmt_snap(&s), validate_snapshot(&s, true), snap_stats(&s))
+        (fmt_snap(&s), { let mut e = validate_snapshot(&s, true); e.extend(seq_growth_due(&s)); e }, snap_stats(&s))
     }
     fn extend(&self, items: &[Item], hint: usize) {
         let mut r = self;
